@@ -4,6 +4,7 @@ import (
 	"fmt"
 	"go/ast"
 	"go/types"
+	"sort"
 	"strings"
 
 	"golang.org/x/tools/go/ssa"
@@ -183,7 +184,7 @@ func (e *Enc) externalModel(callee *ssa.Function) bool {
 	case "strings.HasPrefix", "strings.HasSuffix", "strings.Contains", "strings.TrimPrefix", "strings.TrimSuffix", "strings.Index",
 		"errors.New", "fmt.Errorf", "fmt.Sprintf", "fmt.Sprint", "strings.Repeat",
 		"sync/atomic.LoadInt32", "sync/atomic.StoreInt32", "sync/atomic.AddInt32", "sync/atomic.CompareAndSwapInt32",
-		"sync/atomic.LoadInt64", "sync/atomic.StoreInt64", "sync/atomic.AddInt64":
+		"sync/atomic.LoadInt64", "sync/atomic.StoreInt64", "sync/atomic.AddInt64", "sort.Slice", "sort.SliceStable":
 		return true
 	}
 	return false
@@ -232,6 +233,11 @@ func (f *Frame) externalCall(callee *ssa.Function, args []string, argVals []ssa.
 	case "fmt.Sprintf", "fmt.Sprint":
 		r := e.symbolic(f.prefix+"str", callee.Signature.Results().At(0).Type(), st, reach)
 		return callOut{reach, []string{r}, st}, true
+	case "sort.Slice", "sort.SliceStable":
+		if out, ok := f.sortSliceModel(callee, argVals, reach, st, in); ok {
+			return out, true
+		}
+		return callOut{}, false
 	}
 	if isAtomic(callee) && len(argVals) > 0 {
 		p := f.placeOf(argVals[0])
@@ -380,4 +386,118 @@ func (f *Frame) modRefs(comp string) []string {
 		}
 	}
 	return refs
+}
+
+// sortSliceModel: sort.Slice / sort.SliceStable(x, less) with less a closure created in this frame. The elements
+// of x are replaced by a permutation of themselves (assumed contract of package sort). When the unit has a
+// "sortby k: E(i, j)" clause for this call site, (a) an obligation shows that the closure computes exactly E for
+// arbitrary in-range indices over arbitrary element values, and (b) the result is assumed sorted by E:
+// forall a < b: !E(b, a).
+func (f *Frame) sortSliceModel(callee *ssa.Function, argVals []ssa.Value, reach string, st *State, in ssa.Instruction) (callOut, bool) {
+	e := f.e
+	if len(argVals) != 2 {
+		return callOut{}, false
+	}
+	mi, ok := argVals[0].(*ssa.MakeInterface)
+	if !ok {
+		return callOut{}, false
+	}
+	sl, ok := mi.X.Type().Underlying().(*types.Slice)
+	if !ok {
+		return callOut{}, false
+	}
+	mc, _ := argVals[1].(*ssa.MakeClosure)
+	x := f.val(mi.X)
+	pre := st.clone()
+	comp := elemCompName(e, sl.Elem())
+	e.havocTarget(st, modTarget{comp: comp, ref: "(s_arr " + x + ")", typ: sl.Elem(), kind: "row"})
+	errs := []string{}
+	env := &CEnv{e: e, vars: map[string]CVal{"x": {S: x, T: mi.X.Type()}}, st: st, old: pre, pkg: f.fn.Pkg.Pkg, errs: &errs}
+	for _, txt := range []string{
+		"forall(j, 0, len(x), exists(i, 0, len(x), x[j] == old(x[i])))",
+		"forall(j, 0, len(x), exists(i, 0, len(x), old(x[j]) == x[i]))",
+		"implies(old(forall(i, 0, len(x), forall(j, i + 1, len(x), x[i] != x[j]))), forall(i, 0, len(x), forall(j, i + 1, len(x), x[i] != x[j])))",
+	} {
+		ex, _, err := parseCExpr(txt)
+		if err != nil {
+			panic(err)
+		}
+		e.assume(reach, env.evalBool(ex))
+	}
+	e.note("assumed contract: %s permutes the elements of its slice argument", fnKey(callee))
+	// ordinal of this call among the sort.Slice* calls of the function (source order)
+	k := 0
+	if f.depth == 0 {
+		var poss []int
+		for _, b := range f.fn.Blocks {
+			for _, i2 := range b.Instrs {
+				if c, ok := i2.(ssa.CallInstruction); ok {
+					if sc := c.Common().StaticCallee(); sc != nil && (fnKey(sc) == "sort.Slice" || fnKey(sc) == "sort.SliceStable") {
+						poss = append(poss, int(i2.Pos()))
+					}
+				}
+			}
+		}
+		sort.Ints(poss)
+		for i, p := range poss {
+			if p == int(in.Pos()) {
+				k = i + 1
+			}
+		}
+	}
+	var clause *Clause
+	for _, c := range e.unit.SortBy {
+		if c.Loop == k && k > 0 {
+			clause = c
+		}
+	}
+	if clause == nil || mc == nil {
+		if clause != nil {
+			e.P.contractError("%s: sortby %d: the less argument is not a closure literal", clause.Line, k)
+		}
+		return callOut{reach, nil, st}, true
+	}
+	fn := mc.Fn.(*ssa.Function)
+	if len(fn.Params) != 2 {
+		return callOut{reach, nil, st}, true
+	}
+	n := fmt.Sprintf("(s_len %s)", x)
+	// (a) the closure computes the sortby expression
+	ci, cj := e.freshConst("sorti", e.idxSort()), e.freshConst("sortj", e.idxSort())
+	rng := fmt.Sprintf("(and %s %s %s %s)", e.idxLe(e.idxLit("0"), ci), e.idxLt(ci, n), e.idxLe(e.idxLit("0"), cj), e.idxLt(cj, n))
+	r0 := e.define(f.prefix+"sr", "Bool", fmt.Sprintf("(and %s %s)", reach, rng))
+	scratch := st.clone()
+	out := f.inlineClosure(mc, []string{ci, cj}, r0, scratch)
+	blk := in.Block()
+	specEnv := func(a, b string, s *State) *CEnv {
+		es := []string{}
+		ev := &CEnv{e: e, vars: map[string]CVal{}, st: s, old: f.entrySt, pkg: f.fn.Pkg.Pkg, frame: f, at: blk, lets: e.unit.Lets, errs: &es}
+		for kk, v := range f.params {
+			ev.vars[kk] = v
+		}
+		ev.vars[fn.Params[0].Name()] = CVal{S: a, T: fn.Params[0].Type()}
+		ev.vars[fn.Params[1].Name()] = CVal{S: b, T: fn.Params[1].Type()}
+		return ev
+	}
+	lab := clause.Label
+	if lab == "" {
+		lab = fmt.Sprintf("s%d", k)
+	}
+	ev := specEnv(ci, cj, st)
+	spec := ev.evalBool(clause.Expr)
+	f.reportEnvErrs(ev, clause)
+	if len(out.results) == 1 {
+		o := e.oblige("sortby", fmt.Sprintf("%s#sortby[%d.%s].less", e.unit.Key(), k, lab), lab, out.reach, fmt.Sprintf("(= %s %s)", out.results[0], spec), clause.Line)
+		_ = o
+		// the closure must not panic for in-range indices
+		e.oblige("sortby", fmt.Sprintf("%s#sortby[%d.%s].total", e.unit.Key(), k, lab), lab, r0, out.reach, clause.Line)
+	}
+	// (b) sorted by the expression
+	qa, qb := "|q.sorta|", "|q.sortb|"
+	ev2 := specEnv(qb, qa, st)
+	body := ev2.evalBool(clause.Expr)
+	f.reportEnvErrs(ev2, clause)
+	is := e.idxSort()
+	e.assume(reach, fmt.Sprintf("(forall ((%s %s) (%s %s)) (=> (and %s %s %s) (not %s)))", qa, is, qb, is, e.idxLe(e.idxLit("0"), qa), e.idxLt(qa, qb), e.idxLt(qb, n), body))
+	return callOut{reach, nil, st}, true
 }
